@@ -893,4 +893,414 @@ theorem live_connection_probed_first (s : St) (i c : Nat) (rest : List (Nat × B
   unfold usePopped
   simp only [hg, probe, ha, if_true]
 
+/-! ## C07: a connection is in one place at a time -/
+
+def ind (b : Bool) : Nat := if b then 1 else 0
+
+def idleOcc (s : St) (c : Nat) : Nat := ((s.idle.getD []).map fun p => ind (p.1 == c)).sum
+def holdOcc (s : St) (c : Nat) : Nat := (s.senders.map fun t => ind (t.holding == some c)).sum
+def recOcc (s : St) (c : Nat) : Nat := (s.recyclers.map fun r => ind (r == some c)).sum
+def listOcc (d : List Nat) (c : Nat) : Nat := (d.map fun x => ind (x == c)).sum
+def maintOcc (s : St) (c : Nat) : Nat :=
+  match s.maint with
+  | .push c' _ d => ind (c' == c) + listOcc d c
+  | _ => 0
+
+/-- in how many places connection `c` is: parked, held by a sender, waiting in a recycle task,
+    held by the maintenance worker -/
+def occ (s : St) (c : Nat) : Nat := idleOcc s c + holdOcc s c + recOcc s c + maintOcc s c
+
+def Excl (s : St) : Prop := ∀ c, occ s c ≤ 1
+
+theorem sum_ind_zero {α : Type} (l : List α) (p : α → Bool) (h : ∀ x ∈ l, p x = false) :
+    (l.map fun x => ind (p x)).sum = 0 := by
+  induction l with
+  | nil => rfl
+  | cons a l ih =>
+    simp only [List.map_cons, List.sum_cons]
+    rw [ih (fun x hx => h x (by simp [hx])), h a (by simp)]
+    rfl
+
+/-- ids that do not exist yet are nowhere -/
+theorem occ_fresh (s : St) (hv : Valid s) (c : Nat) (hc : s.conns.length ≤ c) : occ s c = 0 := by
+  have h1 : idleOcc s c = 0 := by
+    unfold idleOcc
+    apply sum_ind_zero
+    intro p hp
+    cases hi : s.idle with
+    | none => simp [hi] at hp
+    | some l =>
+      simp [hi] at hp
+      have := hv.idle l hi p hp
+      simp; omega
+  have h2 : holdOcc s c = 0 := by
+    unfold holdOcc
+    apply sum_ind_zero
+    intro t ht
+    cases hh : t.holding with
+    | none => simp
+    | some c' => have := hv.hold t ht c' hh; simp; omega
+  have h3 : recOcc s c = 0 := by
+    unfold recOcc
+    apply sum_ind_zero
+    intro r hr
+    cases r with
+    | none => simp
+    | some c' => have := hv.recy c' hr; simp; omega
+  have h4 : maintOcc s c = 0 := by
+    unfold maintOcc
+    split
+    · rename_i c' m d hm
+      obtain ⟨a, b⟩ := hv.mnt c' m d hm
+      have : listOcc d c = 0 := by
+        unfold listOcc; apply sum_ind_zero; intro x hx; have := b x hx; simp; omega
+      rw [this]
+      have : (c' == c) = false := by simp; omega
+      simp [this, ind]
+    · rfl
+  simp [occ, h1, h2, h3, h4]
+
+theorem occ_updConn (s : St) (c : Nat) (f : Conn → Conn) (d : Nat) : occ (updConn s c f) d = occ s d := rfl
+
+theorem occ_foldl {α : Type} (g : α → Nat) (f : Conn → Conn) (l : List α) (s : St) (d : Nat) :
+    occ (l.foldl (fun s p => updConn s (g p) f) s) d = occ s d := by
+  induction l generalizing s with
+  | nil => rfl
+  | cons a l ih => simp only [List.foldl]; rw [ih]; rfl
+
+theorem occ_foldl' (f : Conn → Conn) (l : List Nat) (s : St) (d : Nat) :
+    occ (l.foldl (fun s c => updConn s c f) s) d = occ s d := occ_foldl id f l s d
+
+theorem occ_openConn (s : St) (d : Nat) : occ (openConn s).1 d = occ s d := by
+  simp [occ, idleOcc, holdOcc, recOcc, maintOcc, openConn]
+
+theorem ind_le_one (b : Bool) : ind b ≤ 1 := by cases b <;> simp [ind]
+
+theorem sum_modify_le {α : Type} (g : α → Nat) (f : α → α) (l : List α) (i : Nat) (k : Nat)
+    (h : ∀ x, g (f x) ≤ g x + k) : ((l.modify i f).map g).sum ≤ (l.map g).sum + k := by
+  cases hi : l[i]? with
+  | none =>
+    have : l.modify i f = l := by
+      apply List.ext_getElem?
+      intro j
+      rw [List.getElem?_modify]
+      by_cases hj : i = j
+      · subst hj; simp [hi]
+      · simp [hj]
+    rw [this]; omega
+  | some x =>
+    have := sum_map_modify g f l i x hi
+    have := h x
+    omega
+
+theorem occ_updSender_le (s0 : St) (i : Nat) (f : Sender → Sender) (d k : Nat)
+    (hf : ∀ x : Sender, ind ((f x).holding == some d) ≤ ind (x.holding == some d) + k) :
+    occ (updSender s0 i f) d ≤ occ s0 d + k := by
+  have hh : holdOcc (updSender s0 i f) d ≤ holdOcc s0 d + k := by
+    simp only [holdOcc, updSender]
+    exact sum_modify_le _ _ _ _ k hf
+  have : occ (updSender s0 i f) d = idleOcc s0 d + holdOcc (updSender s0 i f) d + recOcc s0 d + maintOcc s0 d := rfl
+  simp only [occ] at *
+  omega
+
+theorem occ_addRecycler (s0 : St) (x : Option Nat) (d : Nat) :
+    occ { s0 with recyclers := s0.recyclers ++ [x] } d = occ s0 d + ind (x == some d) := by
+  have hr : recOcc { s0 with recyclers := s0.recyclers ++ [x] } d = recOcc s0 d + ind (x == some d) := by
+    simp [recOcc]
+  have : occ { s0 with recyclers := s0.recyclers ++ [x] } d =
+      idleOcc s0 d + holdOcc s0 d + recOcc { s0 with recyclers := s0.recyclers ++ [x] } d + maintOcc s0 d := rfl
+  simp only [occ] at *
+  omega
+
+/-- a sender that takes connection `c` for a transaction: `c` shows up in at most one more place -/
+theorem occ_finishSend (s : St) (i c : Nat) (r : Res) (d : Nat) :
+    occ (finishSend s i c r) d ≤ occ s d + ind (c == d) := by
+  unfold finishSend
+  simp only []
+  split
+  · -- tokio: a recycle task is spawned
+    have h1 := occ_updSender_le { s with recyclers := s.recyclers ++ [if (getConn s c).broken = true then none else some c] } i
+      (fun t => { t with next := t.next + 1, results := r :: t.results }) d 0 (fun x => by simp)
+    have h2 := occ_addRecycler s (if (getConn s c).broken = true then none else some c) d
+    have h3 : ind ((if (getConn s c).broken = true then none else some c) == some d) ≤ ind (c == d) := by
+      split <;> simp [ind]
+    omega
+  · split
+    · exact Nat.le_trans (occ_updSender_le s i _ d 0 (fun x => by simp)) (by omega)
+    · apply occ_updSender_le
+      intro x
+      have : ind (some c == some d) = ind (c == d) := by simp [ind]
+      simp only [this]; omega
+
+theorem occ_sendOn (s : St) (i c d : Nat) : occ (sendOn s i c) d ≤ occ s d + ind (c == d) := by
+  unfold sendOn
+  have := occ_finishSend (updConn s c fun _ => (transact (getConn s c) i (s.senders.getD i {}).next).1) i c
+    (transact (getConn s c) i (s.senders.getD i {}).next).2 d
+  rw [occ_updConn] at this
+  exact this
+
+theorem occ_split (s : St) (d : Nat) : occ s d = idleOcc s d + holdOcc s d + recOcc s d + maintOcc s d := rfl
+
+theorem occ_maintContinue (s2 : St) (more : Nat) (dropped : List Nat) (d : Nat) :
+    occ (maintContinue s2 more dropped) d + maintOcc s2 d ≤ occ s2 d + ind (s2.conns.length == d) + listOcc dropped d := by
+  cases more with
+  | zero =>
+    simp only [maintContinue]
+    have h := occ_foldl' abortConn dropped s2 d
+    have hm : maintOcc (dropped.foldl (fun s c => updConn s c abortConn) s2) d = maintOcc s2 d := by
+      simp only [maintOcc, foldl_updConn_maint (fun c : Nat => c) abortConn dropped s2]
+    generalize dropped.foldl (fun s c => updConn s c abortConn) s2 = s3 at *
+    have e : occ { s3 with maint := .asleep } d + maintOcc s3 d = occ s3 d := by
+      show idleOcc s3 d + holdOcc s3 d + recOcc s3 d + 0 + maintOcc s3 d = idleOcc s3 d + holdOcc s3 d + recOcc s3 d + maintOcc s3 d
+      omega
+    omega
+  | succ n =>
+    simp only [maintContinue]
+    have h := occ_openConn s2 d
+    have hl := openConn_snd s2
+    have hm : maintOcc (openConn s2).1 d = maintOcc s2 d := by simp only [maintOcc, openConn_maint]
+    generalize (openConn s2).1 = s3 at *
+    generalize (openConn s2).2 = c3 at *
+    subst hl
+    have e : occ { s3 with maint := .push s2.conns.length n dropped } d + maintOcc s3 d =
+        occ s3 d + (ind (s2.conns.length == d) + listOcc dropped d) := by
+      show idleOcc s3 d + holdOcc s3 d + recOcc s3 d + (ind (s2.conns.length == d) + listOcc dropped d) + maintOcc s3 d = idleOcc s3 d + holdOcc s3 d + recOcc s3 d + maintOcc s3 d + _
+      omega
+    omega
+
+theorem idleOcc_cons (s : St) (c : Nat) (x : Bool) (rest : List (Nat × Bool)) (h : s.idle = some ((c, x) :: rest)) (d : Nat) :
+    idleOcc s d = ind (c == d) + idleOcc { s with idle := some rest } d := by
+  simp [idleOcc, h]
+
+theorem filter_partition (l : List (Nat × Bool)) (d : Nat) :
+    (l.map fun p => ind (p.1 == d)).sum =
+      ((l.filter (!·.2)).map fun p => ind (p.1 == d)).sum + listOcc ((l.filter (·.2)).map (·.1)) d := by
+  induction l with
+  | nil => simp [listOcc]
+  | cons a l ih =>
+    cases ha : a.2 <;> simp [List.filter, ha, listOcc] at * <;> omega
+
+theorem ind_eq_of (a b : Nat) (h : a = b) : ind (a == b) = 1 := by simp [ind, h]
+theorem ind_ne_of (a b : Nat) (h : a ≠ b) : ind (a == b) = 0 := by simp [ind, h]
+
+/-- a fresh id adds at most one place, and only for itself, where nothing was before -/
+theorem fresh_bound (s : St) (hv : Valid s) (he : Excl s) (d : Nat) : occ s d + ind (s.conns.length == d) ≤ 1 := by
+  by_cases h : s.conns.length = d
+  · have := occ_fresh s hv d (by omega); rw [ind_eq_of _ _ h]; omega
+  · rw [ind_ne_of _ _ h]; exact he d
+
+theorem recycleConn_occ (s2 : St) (c d : Nat) : occ (recycleConn s2 c) d ≤ occ s2 d + ind (c == d) := by
+  unfold recycleConn
+  split
+  · rw [occ_updConn]; omega
+  · split
+    · rw [occ_updConn]; omega
+    · rename_i l hl _
+      have : idleOcc { s2 with idle := some ((c, false) :: l) } d = ind (c == d) + idleOcc s2 d := by
+        simp [idleOcc, hl]
+      have e : occ { s2 with idle := some ((c, false) :: l) } d =
+          idleOcc { s2 with idle := some ((c, false) :: l) } d + holdOcc s2 d + recOcc s2 d + maintOcc s2 d := rfl
+      simp only [occ_split] at *
+      omega
+
+theorem set_eq_modify' {α : Type} (l : List α) (i : Nat) (v : α) : l.set i v = l.modify i (fun _ => v) := by
+  induction l generalizing i with
+  | nil => simp
+  | cons a l ih => cases i with
+    | zero => simp [List.modify]
+    | succ i => simp [List.modify_succ_cons, ih]
+
+theorem excl_step (s s' : St) (e : Ev) (hv : Valid s) (he : Excl s) (hs : step s e = some s') : Excl s' := by
+  intro d
+  have hd := he d
+  cases e with
+  | connectionLock i =>
+    simp only [step, connectionLock] at hs
+    split at hs
+    · cases hs
+    · split at hs
+      · cases hs
+      · split at hs
+        · injection hs with hs; subst hs
+          exact Nat.le_trans (occ_updSender_le s i _ d 0 (fun x => by simp)) (by omega)
+        · injection hs with hs; subst hs
+          unfold connectFresh
+          have h1 := occ_sendOn (openConn s).1 i (openConn s).2 d
+          rw [occ_openConn] at h1
+          rw [openConn_snd] at h1 ⊢
+          have := fresh_bound s hv he d
+          omega
+        · rename_i c x rest hidle
+          injection hs with hs; subst hs
+          have hi := idleOcc_cons s c x rest hidle d
+          have e1 : occ { s with idle := some rest } d + ind (c == d) = occ s d := by
+            have : occ { s with idle := some rest } d = idleOcc { s with idle := some rest } d + holdOcc s d + recOcc s d + maintOcc s d := rfl
+            simp only [occ_split] at *
+            omega
+          unfold usePopped
+          simp only []
+          split
+          · have h1 := occ_sendOn (updConn { s with idle := some rest } c fun _ => (probe (getConn { s with idle := some rest } c)).1) i c d
+            rw [occ_updConn] at h1
+            omega
+          · rw [occ_updConn]; omega
+  | recycleLock w =>
+    simp only [step, recycleLock] at hs
+    split at hs
+    · split at hs
+      · rename_i c hw
+        injection hs with hs; subst hs
+        have h1 := recycleConn_occ { s with recyclers := s.recyclers.set w none } c d
+        have h2 : recOcc { s with recyclers := s.recyclers.set w none } d + ind (c == d) = recOcc s d := by
+          simp only [recOcc, set_eq_modify']
+          have := sum_map_modify (fun r : Option Nat => ind (r == some d)) (fun _ => none) s.recyclers w (some c) hw
+          have e : ind ((none : Option Nat) == some d) = 0 := by simp [ind]
+          have e2 : ind (some c == some d) = ind (c == d) := by simp [ind]
+          simp only [e, e2] at this
+          omega
+        have e3 : occ { s with recyclers := s.recyclers.set w none } d =
+            idleOcc s d + holdOcc s d + recOcc { s with recyclers := s.recyclers.set w none } d + maintOcc s d := rfl
+        simp only [occ_split] at *
+        omega
+      · cases hs
+    · split at hs
+      · cases hs
+      · rename_i t ht
+        split at hs
+        · cases hs
+        · rename_i c hc0
+          injection hs with hs; subst hs
+          have h1 := recycleConn_occ (updSender s w fun t => { t with holding := none, next := t.next + 1 }) c d
+          have h2 : holdOcc (updSender s w fun t => { t with holding := none, next := t.next + 1 }) d + ind (c == d) = holdOcc s d := by
+            simp only [holdOcc, updSender]
+            have := sum_map_modify (fun t : Sender => ind (t.holding == some d)) (fun t => { t with holding := none, next := t.next + 1 }) s.senders w t ht
+            have e : ind ((none : Option Nat) == some d) = 0 := by simp [ind]
+            have e2 : ind (t.holding == some d) = ind (c == d) := by rw [hc0]; simp [ind]
+            simp only [e, e2] at this
+            omega
+          have e3 : occ (updSender s w fun t => { t with holding := none, next := t.next + 1 }) d =
+              idleOcc s d + holdOcc (updSender s w fun t => { t with holding := none, next := t.next + 1 }) d + recOcc s d + maintOcc s d := rfl
+          simp only [occ_split] at *
+          omega
+  | maintScan =>
+    simp only [step, maintScan] at hs
+    split at hs
+    · cases hs
+    · rename_i hmode
+      have hm0 : maintOcc s d = 0 := by
+        unfold maintOcc
+        split
+        · rename_i hm; simp [hm] at hmode
+        · rfl
+      split at hs
+      · injection hs with hs; subst hs
+        have : occ { s with maint := .exited } d = idleOcc s d + holdOcc s d + recOcc s d + 0 := rfl
+        simp only [occ_split] at *; omega
+      · rename_i l hl
+        injection hs with hs; subst hs
+        have h1 := occ_maintContinue { s with idle := some (l.filter (!·.2)) } (s.minIdle - (l.filter (!·.2)).length) ((l.filter (·.2)).map (·.1)) d
+        have hp := filter_partition l d
+        have e1 : idleOcc s d = (l.map fun p => ind (p.1 == d)).sum := by simp [idleOcc, hl]
+        have e2 : idleOcc { s with idle := some (l.filter (!·.2)) } d = ((l.filter (!·.2)).map fun p => ind (p.1 == d)).sum := by simp [idleOcc]
+        have e3 : occ { s with idle := some (l.filter (!·.2)) } d = idleOcc { s with idle := some (l.filter (!·.2)) } d + holdOcc s d + recOcc s d + maintOcc s d := rfl
+        have e4 : maintOcc { s with idle := some (l.filter (!·.2)) } d = maintOcc s d := rfl
+        have hf := fresh_bound s hv he d
+        simp only [occ_split] at *
+        omega
+  | maintPush =>
+    simp only [step, maintPush] at hs
+    split at hs
+    · rename_i c more dropped hm
+      have hmo : maintOcc s d = ind (c == d) + listOcc dropped d := by simp [maintOcc, hm]
+      split at hs
+      · injection hs with hs; subst hs
+        have h1 := occ_foldl' dropConn (c :: dropped) s d
+        generalize (c :: dropped).foldl (fun s c => updConn s c dropConn) s = s3 at *
+        have : occ { s3 with maint := .exited } d + maintOcc s3 d = occ s3 d := by
+          show idleOcc s3 d + holdOcc s3 d + recOcc s3 d + 0 + maintOcc s3 d = idleOcc s3 d + holdOcc s3 d + recOcc s3 d + maintOcc s3 d
+          omega
+        omega
+      · rename_i l hl
+        split at hs
+        · injection hs with hs; subst hs
+          have h1 := occ_maintContinue (updConn s c abortConn) 0 dropped d
+          simp only [maintContinue] at h1 ⊢
+          have h2 := occ_foldl' abortConn dropped (updConn s c abortConn) d
+          generalize dropped.foldl (fun s c => updConn s c abortConn) (updConn s c abortConn) = s3 at *
+          have : occ { s3 with maint := .asleep } d ≤ occ s3 d := by
+            show idleOcc s3 d + holdOcc s3 d + recOcc s3 d + 0 ≤ idleOcc s3 d + holdOcc s3 d + recOcc s3 d + maintOcc s3 d
+            omega
+          rw [occ_updConn] at h2
+          omega
+        · injection hs with hs; subst hs
+          have h1 := occ_maintContinue { s with idle := some ((c, false) :: l) } more dropped d
+          have e1 : idleOcc { s with idle := some ((c, false) :: l) } d = ind (c == d) + idleOcc s d := by simp [idleOcc, hl]
+          have e3 : occ { s with idle := some ((c, false) :: l) } d = idleOcc { s with idle := some ((c, false) :: l) } d + holdOcc s d + recOcc s d + maintOcc s d := rfl
+          have e4 : maintOcc { s with idle := some ((c, false) :: l) } d = maintOcc s d := rfl
+          have hf := fresh_bound s hv he d
+          simp only [occ_split] at *
+          omega
+    · cases hs
+  | shutdownLock =>
+    simp only [step] at hs; injection hs with hs; subst hs
+    unfold shutdownLock
+    split
+    · exact hd
+    · rename_i l hl
+      simp only []
+      have h1 := occ_foldl (fun p : Nat × Bool => p.1) abortConn l { s with idle := none } d
+      have hm := foldl_updConn_maint (fun p : Nat × Bool => p.1) abortConn l { s with idle := none }
+      generalize l.foldl (fun s p => updConn s p.1 abortConn) { s with idle := none } = s3 at *
+      have e0 : occ { s with idle := none } d ≤ occ s d := by
+        show 0 + holdOcc s d + recOcc s d + maintOcc s d ≤ idleOcc s d + holdOcc s d + recOcc s d + maintOcc s d
+        omega
+      have : occ { s3 with maint := if s3.maint == .asleep then .exited else s3.maint } d ≤ occ s3 d := by
+        by_cases ha : s3.maint = .asleep
+        · have : occ { s3 with maint := if s3.maint == .asleep then .exited else s3.maint } d = idleOcc s3 d + holdOcc s3 d + recOcc s3 d + 0 := by
+            simp only [ha]; rfl
+          simp only [occ_split] at *; omega
+        · have hne : (s3.maint == .asleep) = false := by simpa using ha
+          simp only [hne]
+          exact Nat.le_refl _
+      omega
+  | wait =>
+    simp only [step, waitEv] at hs; injection hs with hs; subst hs
+    have e1 : idleOcc { s with idle := s.idle.map (·.map fun p => (p.1, true)), maint := if s.maint == .asleep then .scan else s.maint } d = idleOcc s d := by
+      cases hi : s.idle with
+      | none => simp [idleOcc, hi]
+      | some l => simp [idleOcc, hi, List.map_map, Function.comp_def]
+    have e2 : maintOcc { s with idle := s.idle.map (·.map fun p => (p.1, true)), maint := if s.maint == .asleep then .scan else s.maint } d ≤ maintOcc s d := by
+      by_cases ha : s.maint = .asleep
+      · simp [maintOcc, ha]
+      · have hne : (s.maint == .asleep) = false := by simpa using ha
+        simp only [maintOcc, hne]; exact Nat.le_refl _
+    have e3 : occ { s with idle := s.idle.map (·.map fun p => (p.1, true)), maint := if s.maint == .asleep then .scan else s.maint } d =
+        idleOcc { s with idle := s.idle.map (·.map fun p => (p.1, true)), maint := if s.maint == .asleep then .scan else s.maint } d + holdOcc s d + recOcc s d +
+        maintOcc { s with idle := s.idle.map (·.map fun p => (p.1, true)), maint := if s.maint == .asleep then .scan else s.maint } d := rfl
+    simp only [occ_split] at *
+    omega
+
+
+theorem excl_init (a : Bool) (mx mn sd ns : Nat) (pl : List (Option Nat × Option Nat)) : Excl (init a mx mn sd ns pl) := by
+  intro d
+  have h2 : holdOcc (init a mx mn sd ns pl) d = 0 := by
+    unfold holdOcc
+    apply sum_ind_zero
+    intro t ht
+    simp [init] at ht
+    obtain ⟨_, rfl⟩ := ht
+    rfl
+  simp only [occ_split, h2]
+  simp [idleOcc, recOcc, maintOcc, init]
+
+theorem valid_excl_run (es : List Ev) (s s' : St) (hv : Valid s) (he : Excl s) (hr : run s es = some s') :
+    Valid s' ∧ Excl s' := by
+  induction es generalizing s with
+  | nil => simp [run] at hr; subst hr; exact ⟨hv, he⟩
+  | cons e es ih =>
+    simp only [run] at hr
+    cases hst : step s e with
+    | none => simp [hst] at hr
+    | some s1 => simp [hst] at hr; exact ih s1 (valid_step s s1 e hv hst) (excl_step s s1 e hv he hst) hr
+
 end LV.PoolLts
